@@ -7,6 +7,23 @@ namespace sim {
 
 static std::string mixc(Rng &r, std::string s) { for (auto &c : s) if (r.chance(0.25)) c = (char)toupper((unsigned char)c); return s; }
 
+// replacing the table: qmail-newu writes users/cdb.tmp and renames it; whatever stops it, users/cdb stays a complete table
+static bool gen_c11_newu(Rng &r, Plan &p) {
+  p.knobs.set("mode", "newu").set("oracles", oracle_list({"c11"})).set("split_p", r.pick(std::vector<double>{0.0, 0.5})).set("stick", 1.0);
+  auto table = [&](int n) { std::string a; for (int q = 0; q < n; q++) a += (r.chance(0.5) ? "=" : "+") + std::string("u") + std::to_string(r.below(50)) + ":joe:" + std::to_string(500 + r.below(20)) + ":100:/home/joe:" + (r.chance(0.5) ? "-" : "") + ":" + (r.chance(0.5) ? "ext" : "") + ":\n"; if (r.chance(0.3)) a += "+:alias:7790:2108:/var/qmail/alias:-::\n"; a += ".\n"; return a; };
+  p.knobs.set("assign_old", r.chance(0.1) ? std::string("=broken\n") : table((int)r.range(0, 6))).set("assign", r.chance(0.05) ? std::string("=a:b\n.\n") : table((int)r.pick(std::vector<int>{0, 1, 3, 10, 200, 2000})));
+  Fault f; f.actor = "qmail-newu#3"; int k = (int)r.below(6);
+  // (a run over a small table makes about a dozen calls; the exit itself is the last fault site: stopped after the rename, before anybody knows)
+  if (k == 0) { f.call = C_ANY; f.nth = (int)r.range(1, 16); f.kind = "kill"; }
+  else if (k == 1 || k == 2) { f.call = C_ANY; f.nth = r.chance(0.8) ? (int)r.range(1, 16) : (int)r.range(1, 60); f.kind = "crash"; f.image = k == 1 ? "worst" : "random"; }
+  else if (k == 3) { f.call = r.pick(std::vector<CallId>{C_WRITE, C_FSYNC, C_RENAME, C_OPEN, C_READ, C_CLOSE}); f.nth = (int)r.range(1, 4); f.kind = "error"; f.err = r.pick(std::vector<int>{EIO, ENOSPC, EDQUOT}); }
+  else if (k == 4) { f.call = C_MALLOC; f.nth = (int)r.range(1, 30); f.kind = "null"; }
+  else { f.call = C_WRITE; f.nth = (int)r.range(1, 5); f.kind = "short"; f.arg = (int64_t)r.range(1, 100); }
+  p.faults.push_back(f);
+  p.label = "qmail-newu replaces the table, disturbed by " + f.kind;
+  return true;
+}
+
 // the passwd leg: qmail-pw2u builds the assignment table from a passwd file "by the same rules as qmail-getpw"
 static bool gen_c11_pw2u(Rng &r, Plan &p) {
   p.knobs.set("mode", "pw2u").set("oracles", oracle_list({"c11"})).set("split_p", r.pick(std::vector<double>{0.0, 0.5})).set("stick", 1.0);
@@ -42,6 +59,7 @@ static bool gen_c11(uint64_t seed, const std::string &tier, uint64_t i, Plan &p)
   p = Plan(); p.property = "C11"; p.world = "H"; p.seed = mix64(mix64(seed, 0xC11), i);
   Rng r(p.seed);
   if (i % 8 == 2) return gen_c11_pw2u(r, p);
+  if (i % 16 == 3) return gen_c11_newu(r, p);
   p.knobs.set("mode", "lspawn").set("oracles", oracle_list({"c11"})).set("split_p", r.pick(std::vector<double>{0.0, 0.5})).set("stick", r.pick(std::vector<double>{0.5, 1.0})).set("pipe_buf", 512);
   // passwd
   Json pw = Json::arr();
